@@ -13,7 +13,7 @@ RULE = ("for every distribution in the box (key sets over {0,1,2}^t, integer / F
         "weighted draw (N choice points with probability w/sum w) and of every patch position (randrange) of the "
         "real sample_jds_from_jdd; exact leaf probabilities give the marginal law of every drawn position; "
         "non-trivial = instance in which some leaf needed a patch")
-BOUNDS = {"quick": "t=1: all non-empty key sets of {0,1,2}; t=2: key sets of size <= 3 of {0,1,2}^2; N 1..3",
+BOUNDS = {"quick": "t=1: all non-empty key sets of {0,1,2} and key sets of size <= 2 of {0,3,4,5} (motif sizes up to 4); t=2: key sets of size <= 3 of {0,1,2}^2; N 1..3",
           "thorough": "t=1,2 key sets of size <= 3; t=3 key sets of size <= 2 over {0,1}^3; N 1..4"}
 ASSUMPTIONS = ["the N weighted draws are observed at the random.choices seam (or, failing that, as the argument of "
                "handshaking_lemma); a refactoring that draws differently makes the check report an infrastructure "
@@ -37,7 +37,7 @@ def weight_patterns(k):
 
 
 def instances(tier, seed):
-    plan = [(1, 3, (0, 1, 2))]
+    plan = [(1, 3, (0, 1, 2)), (1, 2, (0, 3, 4, 5))]
     if tier == "quick":
         plan.append((2, 3, (0, 1, 2)))
         maxN = 3
@@ -208,7 +208,8 @@ def run_instance(inst, tier):
     keys = [tuple(k) for k in inst["keys"]]
     weights = weights_of(inst)
     t = inst["t"]
-    for sizes in itertools.product((1, 2, 3), repeat=t):
+    size_values = (1, 2, 3, 4) if (t == 1 and max(max(k) for k in keys) >= 3) else (1, 2, 3)
+    for sizes in itertools.product(size_values, repeat=t):
         for N in range(1, inst["maxN"] + 1):
             if len(keys) ** N * N ** sum(s - 1 for s in sizes) > 60000:
                 res.skipped += 1
